@@ -210,7 +210,7 @@ def rs_module(name, p, nm=None, macro="ascent", bare_args=False):
 pub mod {name} {{
    use ascent::*;
    use ascent::aggregators::*;
-   use ascent::lattice::{{Dual, set::Set}};
+   use ascent::lattice::{{Dual, set::Set, bounded_set::BoundedSet}};
    use crate::common::*;
    {body.replace(nl, nl + '   ')}
    pub struct Inst {{ p: Prog, pool: Option<std::sync::Arc<ascent::rayon::ThreadPool>> }}
